@@ -37,6 +37,8 @@ type C07Case struct {
 	Body      []byte      `json:"body,omitempty"`
 	Headers   [][2]string `json:"headers,omitempty"`
 	Redeliver int         `json:"redeliver,omitempty"`
+	More      [][]byte    `json:"more,omitempty"`    // further messages accepted before delivery starts (dequeued in one batch)
+	Observe   []string    `json:"observe,omitempty"` // operator read calls issued between acceptance and delivery
 }
 
 func c07Text(c C07Case) string {
@@ -170,6 +172,16 @@ func genC07Case() *rapid.Generator[C07Case] {
 			c.Headers = append(c.Headers, [2]string{rapid.SampledFrom(c07HdrNames).Draw(t, "hn"), rapid.SampledFrom(c07HdrVals).Draw(t, "hv")})
 		}
 		c.Redeliver = rapid.SampledFrom([]int{0, 0, 1, 2, 3}).Draw(t, "redeliver")
+		nm := rapid.SampledFrom([]int{0, 0, 1, 2}).Draw(t, "nmore")
+		for i := 0; i < nm; i++ {
+			b := genBody(t, c.MaxBody)
+			if len(b) > c.MaxBody {
+				b = b[:c.MaxBody]
+			}
+			c.More = append(c.More, b)
+		}
+		c.Observe = rapid.SliceOfN(rapid.SampledFrom([]string{"/messages", "/messages?include_payload=true", "/messages?include_headers=true", "/messages?include_payload=true&include_headers=true&include_trace=true",
+			"/messages?state=queued&limit=1", "/dlq", "/dlq?include_headers=true", "/backlog/top_queued", "/healthz?details=1"}), 0, 3).Draw(t, "observe")
 		return c
 	})
 }
@@ -267,9 +279,23 @@ func runC07(c C07Case, _ bool) *fOutcome {
 		out.Failure = ffail("C07", "stored-count", 0, "accepted request stored %d messages", len(msgs))
 		return out
 	}
-	check := func(where string, payload []byte, headers map[string]string) bool {
-		if string(payload) != string(c.Body) {
-			out.Failure = ffail("C07", "payload-differs", 0, "%s: payload %d bytes %x..., accepted %d bytes %x...", where, len(payload), head(payload), len(c.Body), head(c.Body))
+	bodies := map[string][]byte{msgs[0].ID: c.Body}
+	check := func(where string, id string, payload []byte, headers map[string]string) bool {
+		want, known := bodies[id]
+		if !known {
+			// push deliveries carry no id: any accepted body is fine
+			for _, b := range bodies {
+				if string(b) == string(payload) {
+					want, known = b, true
+				}
+			}
+			if !known {
+				out.Failure = ffail("C07", "payload-differs", 0, "%s: payload %d bytes %x... is not the body of any accepted request", where, len(payload), head(payload))
+				return false
+			}
+		}
+		if string(payload) != string(want) {
+			out.Failure = ffail("C07", "payload-differs", 0, "%s (message %s): payload %d bytes %x..., accepted %d bytes %x...", where, id, len(payload), head(payload), len(want), head(want))
 			return false
 		}
 		hh := map[string]string{}
@@ -288,14 +314,51 @@ func runC07(c C07Case, _ bool) *fOutcome {
 		}
 		return true
 	}
-	if !check("stored", msgs[0].Payload, msgs[0].Headers) {
+	if !check("stored", msgs[0].ID, msgs[0].Payload, msgs[0].Headers) {
 		return out
 	}
+	// further messages (same header list, other bodies) so that one dequeue returns a batch
+	for k, b := range c.More {
+		before, _ := w.dump()
+		rec := serve(w.ingress, FReq{Method: "POST", Path: "/in", Host: "h.example.com", Remote: "203.0.113.7:1", Headers: c.Headers, Body: b})
+		if rec.Code != 202 {
+			out.Failure = ffail("HARNESS", "more", k, "additional request answered %d", rec.Code)
+			return out
+		}
+		after, _ := w.dump()
+		nw := newMsgs(before, after)
+		if len(nw) != 1 {
+			out.Failure = ffail("C07", "stored-count", k, "additional request stored %d messages", len(nw))
+			return out
+		}
+		bodies[nw[0].ID] = b
+		w.clk.add(time.Millisecond)
+	}
+	if len(c.More) > 0 {
+		out.Labels["batch-of-messages"] = true
+	}
+	// operator read calls between acceptance and delivery must not disturb anything
+	for _, o := range c.Observe {
+		path, query := o, ""
+		if i := strings.IndexByte(o, '?'); i >= 0 {
+			path, query = o[:i], o[i+1:]
+		}
+		_ = serve(w.adminH, FReq{Method: "GET", Path: path, Query: query, Host: "a.example.com", Remote: "127.0.0.1:1"})
+		out.Labels["observed"] = true
+	}
+	if stored, err := w.dump(); err == nil {
+		for _, m := range stored {
+			if !check("stored after operator reads", m.ID, m.Payload, m.Headers) {
+				return out
+			}
+		}
+	}
+	total := len(bodies)
 	// ---- delivery (with redeliveries in between)
 	switch c.Mode {
 	case "pull":
 		for round := 0; round <= c.Redeliver; round++ {
-			req := FReq{Method: "POST", Path: "/pull/in/dequeue", Host: "p", Remote: "127.0.0.1:1", Body: []byte(`{"batch":1,"lease_ttl":"30s"}`),
+			req := FReq{Method: "POST", Path: "/pull/in/dequeue", Host: "p", Remote: "127.0.0.1:1", Body: []byte(fmt.Sprintf(`{"batch":%d,"lease_ttl":"30s"}`, total)),
 				Headers: [][2]string{{"Authorization", "Bearer pulltoken"}, {"Content-Type", "application/json"}}}
 			rec := serve(w.pull, req)
 			var resp struct {
@@ -306,25 +369,29 @@ func runC07(c C07Case, _ bool) *fOutcome {
 					Headers    map[string]string `json:"headers"`
 				} `json:"items"`
 			}
-			if rec.Code != 200 || json.Unmarshal(rec.Body.Bytes(), &resp) != nil || len(resp.Items) != 1 {
-				out.Failure = ffail("C07,C05", "pull-dequeue", round, "dequeue round %d answered %d %s", round, rec.Code, rec.Body.String())
+			if rec.Code != 200 || json.Unmarshal(rec.Body.Bytes(), &resp) != nil || len(resp.Items) != total {
+				out.Failure = ffail("C07,C05", "pull-dequeue", round, "dequeue round %d answered %d with %d items, %d expected: %s", round, rec.Code, len(resp.Items), total, rec.Body.String())
 				return out
 			}
-			payload, err := base64.StdEncoding.DecodeString(resp.Items[0].PayloadB64)
-			if err != nil {
-				out.Failure = ffail("C07", "payload-b64", round, "payload_b64 is not standard base64: %v", err)
-				return out
-			}
-			if !check(fmt.Sprintf("pull dequeue #%d", round+1), payload, resp.Items[0].Headers) {
-				return out
+			for _, it := range resp.Items {
+				payload, err := base64.StdEncoding.DecodeString(it.PayloadB64)
+				if err != nil {
+					out.Failure = ffail("C07", "payload-b64", round, "payload_b64 is not standard base64: %v", err)
+					return out
+				}
+				if !check(fmt.Sprintf("pull dequeue #%d", round+1), it.ID, payload, it.Headers) {
+					return out
+				}
 			}
 			if round < c.Redeliver {
-				nb := fmt.Sprintf(`{"lease_id":%q,"delay":"0s"}`, resp.Items[0].LeaseID)
-				nreq := FReq{Method: "POST", Path: "/pull/in/nack", Host: "p", Remote: "127.0.0.1:1", Body: []byte(nb),
-					Headers: [][2]string{{"Authorization", "Bearer pulltoken"}, {"Content-Type", "application/json"}}}
-				if r2 := serve(w.pull, nreq); r2.Code/100 != 2 {
-					out.Failure = ffail("HARNESS", "nack", round, "nack answered %d %s", r2.Code, r2.Body.String())
-					return out
+				for _, it := range resp.Items {
+					nb := fmt.Sprintf(`{"lease_id":%q,"delay":"0s"}`, it.LeaseID)
+					nreq := FReq{Method: "POST", Path: "/pull/in/nack", Host: "p", Remote: "127.0.0.1:1", Body: []byte(nb),
+						Headers: [][2]string{{"Authorization", "Bearer pulltoken"}, {"Content-Type", "application/json"}}}
+					if r2 := serve(w.pull, nreq); r2.Code/100 != 2 {
+						out.Failure = ffail("HARNESS", "nack", round, "nack answered %d %s", r2.Code, r2.Body.String())
+						return out
+					}
 				}
 			}
 		}
@@ -336,19 +403,23 @@ func runC07(c C07Case, _ bool) *fOutcome {
 		wk.Authorize = w.state.authorizeWorker
 		ctx := metadata.NewIncomingContext(context.Background(), metadata.Pairs("authorization", "Bearer pulltoken"))
 		for round := 0; round <= c.Redeliver; round++ {
-			resp, err := wk.Dequeue(ctx, &workerapipb.DequeueRequest{Endpoint: "/pull/in", Batch: 1})
-			if err != nil || len(resp.GetItems()) != 1 {
-				out.Failure = ffail("C07,C05", "worker-dequeue", round, "worker dequeue round %d: %v (%d items)", round, err, len(resp.GetItems()))
+			resp, err := wk.Dequeue(ctx, &workerapipb.DequeueRequest{Endpoint: "/pull/in", Batch: uint32(total)})
+			if err != nil || len(resp.GetItems()) != total {
+				out.Failure = ffail("C07,C05", "worker-dequeue", round, "worker dequeue round %d: %v (%d items, %d expected)", round, err, len(resp.GetItems()), total)
 				return out
 			}
-			it := resp.GetItems()[0]
-			if !check(fmt.Sprintf("worker dequeue #%d", round+1), it.GetPayload(), it.GetHeaders()) {
-				return out
+			// judge the whole response after it is complete (items of one response must not share buffers)
+			for _, it := range resp.GetItems() {
+				if !check(fmt.Sprintf("worker dequeue #%d", round+1), it.GetId(), it.GetPayload(), it.GetHeaders()) {
+					return out
+				}
 			}
 			if round < c.Redeliver {
-				if _, err := wk.Nack(ctx, &workerapipb.NackRequest{Endpoint: "/pull/in", LeaseId: it.GetLeaseId()}); err != nil {
-					out.Failure = ffail("HARNESS", "nack", round, "worker nack: %v", err)
-					return out
+				for _, it := range resp.GetItems() {
+					if _, err := wk.Nack(ctx, &workerapipb.NackRequest{Endpoint: "/pull/in", LeaseId: it.GetLeaseId()}); err != nil {
+						out.Failure = ffail("HARNESS", "nack", round, "worker nack: %v", err)
+						return out
+					}
 				}
 			}
 		}
@@ -378,7 +449,7 @@ func runC07(c C07Case, _ bool) *fOutcome {
 		}()
 		push.Start()
 		deadline := time.After(20 * time.Second)
-		want := c.Redeliver + 1
+		want := c.Redeliver + total
 	waitLoop:
 		for rt.count() < want {
 			select {
@@ -402,7 +473,7 @@ func runC07(c C07Case, _ bool) *fOutcome {
 			for k, v := range r.Header {
 				hm[k] = strings.Join(v, ",")
 			}
-			if !check(fmt.Sprintf("push delivery #%d", i+1), r.Body, hm) {
+			if !check(fmt.Sprintf("push delivery #%d", i+1), "", r.Body, hm) {
 				return out
 			}
 		}
